@@ -490,7 +490,8 @@ Definition tw_close (cx : wctx) (c : rwc) (w : tw) : rwc * tw :=
       end
     else match tw_buf w with
          | Some (_ :: _) => report_error cx EOther c
-         | _ => c
+         | Some [] => if tw_wenv w then c else report_error cx EOther c   (* an envelope whose message never started *)
+         | None => c
          end in
   (c', mkTw true None 0 (tw_wenv w) (tw_latest w) (tw_wascomp w)).
 
